@@ -6,6 +6,8 @@ target directory and evidence directory (HX_REPO / HX_WORK / HX_EVIDENCE), appli
 copy, runs ./check for every claimed property and reverts the copy.  /repo itself is only read.
 
 usage: tools/seedsweep.py [-j N] [seed-dir-names or property ids ...]   -> writes seeded/RESULTS.json, prints a table
+       tools/seedsweep.py --benign [-j N] [names...]   behaviour-preserving edits of selftest/benign/*.diff: each must
+                                                        compile and leave every check silent -> selftest/BENIGN_RESULTS.json
 """
 import json
 import os
@@ -17,16 +19,24 @@ import threading
 V = os.path.dirname(os.path.dirname(os.path.abspath(__file__)))
 os.chdir(V)
 args = sys.argv[1:]
+BENIGN = args[:1] == ["--benign"]
+if BENIGN:
+    args = args[1:]
 jobs = 4
 if args[:1] == ["-j"]:
     jobs = int(args[1])
     args = args[2:]
-seeds = sorted(d for d in os.listdir("seeded") if os.path.isdir(os.path.join("seeded", d)))
-if args:
-    seeds = [s for s in seeds if s in args or s.split("-")[0] in args]
+if BENIGN:
+    seeds = sorted(f[:-5] for f in os.listdir("selftest/benign") if f.endswith(".diff"))
+    if args:
+        seeds = [s for s in seeds if any(s.startswith(a) for a in args)]
+else:
+    seeds = sorted(d for d in os.listdir("seeded") if os.path.isdir(os.path.join("seeded", d)))
+    if args:
+        seeds = [s for s in seeds if s in args or s.split("-")[0] in args]
 man = json.load(open("MANIFEST.json"))
 claimed = [c["property_id"] for c in man["checks"]]
-SCR = "/tmp/hxsweep"
+SCR = "/tmp/hxsweep-benign" if BENIGN else "/tmp/hxsweep"
 shutil.rmtree(SCR, ignore_errors=True)
 # the checks run from a snapshot of /verif, so that /verif can be edited while the sweep runs
 SNAP = os.path.join(SCR, "verif")
@@ -36,7 +46,7 @@ for eng in ("hx-mir", "hx-ast"):
     os.makedirs(os.path.join(SNAP, "engines", eng, "target", "debug"))
     shutil.copy2(os.path.join(V, "engines", eng, "target", "debug", eng), os.path.join(SNAP, "engines", eng, "target", "debug", eng))
 res = {}
-rp = os.path.join("seeded", "RESULTS.json")
+rp = os.path.join("selftest", "BENIGN_RESULTS.json") if BENIGN else os.path.join("seeded", "RESULTS.json")
 if os.path.exists(rp) and args:
     res = json.load(open(rp))
 lock = threading.Lock()
@@ -72,7 +82,7 @@ def worker(i):
             if not todo:
                 return
             s = todo.pop(0)
-        patch = os.path.join(V, "seeded", s, "patch.diff")
+        patch = os.path.join(V, "selftest", "benign", s + ".diff") if BENIGN else os.path.join(V, "seeded", s, "patch.diff")
         r = subprocess.run(["git", "apply", patch], cwd=repo, capture_output=True, text=True)
         if r.returncode != 0:
             with lock:
@@ -80,6 +90,19 @@ def worker(i):
                 print(s, "PATCH DOES NOT APPLY", r.stderr[:200], flush=True)
             continue
         try:
+            if BENIGN:
+                b = subprocess.run(["cargo", "check", "--offline", "--workspace", "-q"], cwd=repo, capture_output=True, text=True,
+                                   env=dict(os.environ, CARGO_TARGET_DIR=os.path.join(base, "ctarget"), CARGO_NET_OFFLINE="true", RUSTFLAGS="-Awarnings"))
+                if b.returncode != 0:
+                    with lock:
+                        res[s] = {"error": "does not compile: " + b.stderr[-300:]}
+                        print(s, "DOES NOT COMPILE", flush=True)
+                    continue
+                hits = run_checks(env)
+                with lock:
+                    res[s] = {"false_alarms": hits}
+                    print("%-30s %s" % (s, "silent" if not hits else "FALSE ALARM: " + "; ".join("%s(%s)" % (k, (v[0] if v else "")[:120]) for k, v in hits.items())), flush=True)
+                continue
             hits = run_checks(env)
             own = s.split("-")[0]
             with lock:
